@@ -372,6 +372,18 @@ pub fn lookup(name: &str) -> Option<OpFn> {
             r.extend(diff(Matrix3::from(p * q), Matrix3::from(p) * m3));
             r.extend(diff(Matrix4::from(p * q), Matrix4::from(p) * m4));
             r.extend(diff(Matrix3::from(Basis3::from(p * q)), Matrix3::from(Basis3::from(p) * b3)));
+            // composition through every spelling of the Basis3 / Matrix3 / Quaternion product of a list (by value, by reference)
+            let (bp, pm3) = (Basis3::from(p), Matrix3::from(p));
+            let by_ref: Basis3<X> = [bp, b3].iter().product();
+            let by_val: Basis3<X> = vec![bp, b3].into_iter().product();
+            r.extend(diff(Matrix3::from(by_ref), Matrix3::from(p * q)));
+            r.extend(diff(Matrix3::from(by_val), Matrix3::from(p * q)));
+            let m_ref: Matrix3<X> = [pm3, m3].iter().product();
+            let q_ref: Quaternion<X> = [p, q].iter().product();
+            r.extend(diff(m_ref, Matrix3::from(p * q)));
+            r.extend(diff(q_ref, p * q));
+            let three: Basis3<X> = [bp, b3, bp].iter().product();
+            r.extend(diff(Matrix3::from(three), Matrix3::from(p * q * p)));
             ok(r)
         },
         "o.q.roundtrip" => |a| {
@@ -790,6 +802,10 @@ pub fn lookup(name: &str) -> Option<OpFn> {
             r.extend(diff(Matrix4::from_scale(s).transform_vector(v), v * s));
             r.extend(diff(Matrix4::from_nonuniform_scale(x, y, z).transform_point(p), Point3::new(p.x * x, p.y * y, p.z * z)));
             r.extend(diff(Matrix4::from_nonuniform_scale(x, y, z).transform_vector(v), Vector3::new(v.x * x, v.y * y, v.z * z)));
+            // the constructors' actions compose under the matrix product, and a scale matrix keeps the homogeneous weight
+            r.extend(diff((Matrix4::from_translation(t) * Matrix4::from_scale(s)).transform_point(p), p * s + t));
+            r.extend(diff((Matrix4::from_scale(s) * Matrix4::from_translation(t)).transform_point(p), (p + t) * s));
+            r.extend(diff(Matrix4::from_scale(s) * p.to_homogeneous(), (p.to_vec() * s).extend(X::int(1))));
             ok(r)
         },
         "o.m3.constructors" => |a| {
@@ -803,6 +819,12 @@ pub fn lookup(name: &str) -> Option<OpFn> {
             r.extend(diff(tv(Matrix3::from_scale(s), v), v * s));
             r.extend(diff(tp(Matrix3::from_nonuniform_scale(x, y), p), Point2::new(p.x * x, p.y * y)));
             r.extend(diff(tv(Matrix3::from_nonuniform_scale(x, y), v), Vector2::new(v.x * x, v.y * y)));
+            // the constructors' actions compose under the matrix product: scale then displace, displace then scale
+            r.extend(diff(tp(Matrix3::from_translation(t) * Matrix3::from_scale(s), p), p * s + t));
+            r.extend(diff(tp(Matrix3::from_scale(s) * Matrix3::from_translation(t), p), (p + t) * s));
+            r.extend(diff(tp(Matrix3::from_translation(t) * Matrix3::from_nonuniform_scale(x, y), p), Point2::new(p.x * x, p.y * y) + t));
+            // ... and a scale matrix is homogeneous-weight preserving: it maps (p, 1) to (s p, 1)
+            r.extend(diff(Matrix3::from_scale(s) * p.to_vec().extend(X::int(1)), (p.to_vec() * s).extend(X::int(1))));
             ok(r)
         },
         // C01: the action of a matrix used as a transform is the matrix-vector product with homogeneous weight 0 (vectors) / 1 (points)
